@@ -108,6 +108,7 @@ type attacker struct {
 	version uint32
 	cDCID   []byte // client's original destination connection ID (first Initial)
 	cSCID   []byte
+	cSCID0  []byte // source connection ID of the client's first Initial
 	sSCID   []byte
 	last    map[string][]byte // last genuine datagram per direction
 	crafted int
@@ -132,6 +133,7 @@ func (a *attacker) tap(dir sim.Dir, rec *sim.Record) {
 			if dir == sim.C2S {
 				if a.cDCID == nil {
 					a.cDCID = append([]byte{}, p.DCID...)
+					a.cSCID0 = append([]byte{}, p.SCID...)
 					a.version = p.Version
 				}
 				a.cSCID = append([]byte{}, p.SCID...)
@@ -491,9 +493,19 @@ func runCase(c Case, u *vf.Unit) *vf.Verdict {
 	// Negotiation packet must be discarded (RFC 9000 6.2: "... if it has received and successfully processed any
 	// other packet, including an earlier Version Negotiation packet")
 	genuineVN := time.Duration(1 << 62)
+	att.mu.Lock()
+	cDCID0, cSCID0 := att.cDCID, att.cSCID0
+	att.mu.Unlock()
 	for _, r := range log {
 		if r.Dir == "s2c" && !r.Forged && !r.Mutated && len(r.Dlv) > 0 && hasClass(r, "vn") && r.Dlv[0] < genuineVN {
-			genuineVN = r.Dlv[0]
+			// a Version Negotiation packet that answers a corrupted Initial echoes connection IDs the client does not
+			// use: the client discards it, nothing has been "processed" then
+			pk, _ := r.Pkts.([]*sim.Packet)
+			for _, p := range pk {
+				if p.Kind == "vn" && bytes.Equal(p.SCID, cDCID0) && bytes.Equal(p.DCID, cSCID0) {
+					genuineVN = r.Dlv[0]
+				}
+			}
 		}
 	}
 	earlyKill, iniForgery, lossy := false, false, false
@@ -665,13 +677,24 @@ func runCase(c Case, u *vf.Unit) *vf.Verdict {
 	if res.sconn != nil {
 		res.sconn.CloseWithError(0, "")
 	}
-	time.Sleep(3 * time.Second) // closing period (3 PTO) and handshake clean-up
+	// The closing period is 3 PTO of the connection's RTT estimate, which a delayed or retransmitted handshake can
+	// inflate to seconds: wait for the routing tables to drain, for at most 40 s of virtual time.
+	const drainLimit = 40 * time.Second
+	time.Sleep(3 * time.Second)
 	ids, toks := ct.VerifRouting()
+	for waited := 3 * time.Second; (len(ids) > 0 || len(toks) > 0) && waited < drainLimit; waited += time.Second {
+		time.Sleep(time.Second)
+		ids, toks = ct.VerifRouting()
+	}
 	if len(ids) > 0 || len(toks) > 0 {
-		return bad("C13/release/client-routing", "client transport still routes %d connection IDs and %d reset tokens 3 s after the connection ended (dial err %v)", len(ids), len(toks), res.dialErr)
+		return bad("C13/release/client-routing", "client transport still routes %d connection IDs and %d reset tokens %v after the connection ended (dial err %v)", len(ids), len(toks), drainLimit, res.dialErr)
 	}
 	time.Sleep(2*hsIdle + time.Second) // abandoned server-side attempts time out
 	ids, toks = st.VerifRouting()
+	for waited := time.Duration(0); (len(ids) > 0 || len(toks) > 0) && waited < drainLimit; waited += time.Second {
+		time.Sleep(time.Second)
+		ids, toks = st.VerifRouting()
+	}
 	if len(ids) > 0 || len(toks) > 0 {
 		return bad("C13/release/server-routing", "server transport still routes %d connection IDs and %d reset tokens after all handshake timeouts passed (accept err %v)", len(ids), len(toks), res.acceptErr)
 	}
